@@ -21,7 +21,7 @@ import time
 
 from .. import core
 
-_GROUP = {"Qarray": "C17", "Qloop": "C12", "Int60": "C03", "Hazard": "C15", "Mpool": "C14", "Dict": "C16", "Ident": "C09", "Swsr": "C15", "Hash": "C16", "Hashmap": "Hashmap", "Sinc": "C10"}
+_GROUP = {"Qarray": "C17", "Qloop": "C12", "Int60": "C03", "Hazard": "C15", "Mpool": "C14", "Dict": "C16", "Ident": "C09", "Swsr": "C15", "Hash": "C16", "Hashmap": "Hashmap", "Sinc": "C10", "Gcd": "C14"}
 _done = {}
 
 
@@ -449,7 +449,38 @@ def diff_sinc(ctx, rng):
     return None
 
 
-DIFF = {"Sinc": diff_sinc, "Hash": diff_hash, "Hashmap": diff_hashmap, "Swsr": diff_swsr, "Ident": diff_ident, "Dict": diff_dict, "Qarray": diff_qarray, "Qloop": diff_qloop, "Int60": diff_int60, "Hazard": diff_hazard, "Mpool": diff_mpool}
+def diff_gcd(ctx, rng):
+    exe = ctx.link("gen_gcd", ["gen_gcd.c"])
+    ps = [(0, 0), (0, 5), (5, 0), (1, 1), (1, 7), (7, 1), (6, 4), (4, 6), (48, 4096), (4096, 48), (4096, 4096), (17, 13), (2 ** 31, 2 ** 31 - 1),
+          (2 ** 32 - 1, 2 ** 32 - 1), (2 ** 20 * 3, 2 ** 21 * 5), (832040, 514229), (12200160415121876738 % 2 ** 63, 7540113804746346429)]
+    for _ in range(400):
+        g = rng.choice([1, 2, 3, 8, 16, 4096, rng.range(1, 1000)])
+        a = g * rng.range(0, 2 ** rng.range(1, 20))
+        b = g * rng.range(0, 2 ** rng.range(1, 20))
+        ps.append((a, b))
+    ps = [(a, b) for a, b in ps]
+    lines = ["G %d %d" % p for p in ps]
+    rc, out, err = core.run_lines(exe, lines + ["Q"], timeout=120)
+    if rc != 0 or len(out) != len(lines):
+        k = min(len(out), len(lines) - 1)
+        return {"kernel": "qt_gcd / qt_lcm", "input": lines[k], "c_result": "crashed / hung (rc=%s)" % rc, "model_result": "defined"}
+    v, msg = coq_eval(ctx, "From QV Require Mpool.Model.",
+                      "(flat_map (fun t => [N.gcd (fst t) (snd t); Mpool.Model.qt_lcm (fst t) (snd t) mod 18446744073709551616]) [%s])%%N" %
+                      "; ".join("(%d, %d)" % p for p in ps))
+    if v is None:
+        return {"error": "model evaluation failed: " + msg}
+    for i, (ln, o) in enumerate(zip(lines, out)):
+        a, b = ps[i]
+        m = "g %d %d" % (v[2 * i], v[2 * i + 1])
+        if a * b >= 2 ** 64:
+            m = "g %d" % v[2 * i]
+            o = " ".join(o.split()[:2])       # the C product overflows: only the gcd is compared
+        if o != m:
+            return {"kernel": "qt_gcd(a, b) qt_lcm(a, b)", "input": ln, "c_result": o, "model_result": m}
+    return None
+
+
+DIFF = {"Gcd": diff_gcd, "Sinc": diff_sinc, "Hash": diff_hash, "Hashmap": diff_hashmap, "Swsr": diff_swsr, "Ident": diff_ident, "Dict": diff_dict, "Qarray": diff_qarray, "Qloop": diff_qloop, "Int60": diff_int60, "Hazard": diff_hazard, "Mpool": diff_mpool}
 
 
 # ---------------------------------------------------------------------------------------------- entry point
